@@ -271,12 +271,15 @@ func (dispatchTransport) RoundTrip(req *http.Request) (*http.Response, error) {
 	plan, ord := wsHTTP()
 	h := sim.Mix(plan, ord, sim.HashString(req.URL.Host))
 	status := 200
-	body := `{"ok":true,"count":3,"name":"Bob","items":[{"id":1,"tag":"a"}]}`
+	body := ""
 	switch h % 5 {
 	case 0:
 		status, body = 500, `{"error":"internal"}`
 	case 1:
 		body = `not json`
+	default:
+		// what the simulated servers of the other checks answer: provider-shaped bodies, bare JSON values, pretty-printed JSON
+		body = string(sim.HealthyBody(req, nil, h>>8))
 	}
 	return &http.Response{Status: fmt.Sprintf("%d x", status), StatusCode: status, Proto: "HTTP/1.1", ProtoMajor: 1, ProtoMinor: 1,
 		Header: http.Header{"Content-Type": []string{"application/json"}}, Body: ioNop(body), ContentLength: int64(len(body)), Request: req}, nil
@@ -395,7 +398,7 @@ func c09Generate(t *sim.Tape) *c09Plan {
 	t.End()
 	t.Begin("scripts")
 	p.Workers = 2 + t.Weighted("nworkers", 3, 3, 2, 1, 1)
-	kinds := []string{"start", "start", "resume", "resume", "reload", "inspect", "templates", "marshal_flow", "eval", "query", "modifier", "groups", "change_language", "find_by_name"}
+	kinds := []string{"start", "start", "resume", "resume", "resume", "reload", "inspect", "templates", "marshal_flow", "eval", "eval", "query", "modifier", "groups", "change_language", "find_by_name"}
 	for w := 0; w < p.Workers; w++ {
 		t.Begin("script")
 		var ops []c09Op
@@ -610,12 +613,13 @@ func c09RunWorker(p *c09Plan, sa flows.SessionAssets, env envs.Environment, w in
 				// old accesses (its shadow state is reset as synchronisation events accumulate), so two
 				// workers must touch the same function close together for a race on its state to be seen
 				yield(7)
-				val, _, err := session.Engine().Evaluator().Template(session.MergedEnvironment(), ctx, tpl, nil)
+				val, warnings, err := session.Engine().Evaluator().Template(session.MergedEnvironment(), ctx, tpl, nil)
 				es := ""
 				if err != nil {
 					es = err.Error()
 				}
-				add(label+"/"+tpl, val+"|"+es)
+				// (warnings too: a value another session marked deprecated shows here)
+				add(label+"/"+tpl, val+"|"+es+"|"+strings.Join(warnings, ";"))
 			}
 		case "query":
 			contact, err := flows.ReadContact(sa, cj, assets.IgnoreMissing)
